@@ -76,7 +76,16 @@ def one(ctx, i):
             'tbl.mean': ([TBL], False), 'tbl.loci0.mean': ([loc(TBL, 0)], False), 'tbl.loci1.var': ([loc(TBL, 1)] * 2, True),
             'tbl.loci.cov01': ([loc(TBL, 0), loc(TBL, 1)], True),
         }
-        for name, (rewards, center) in specs.items():
+        names_ = list(specs)
+        if quick and k_states >= 20:
+            # the fixed-point exponential of the model costs ~10 s per second-order statistic at Van Loan dimension 69: the quick
+            # tier compares all first-order statistics and two of the six second-order ones (chosen at random) for such cases
+            second = [x for x in names_ if len(specs[x][0]) == 2]
+            keep = set(rng.sample(second, 2))
+            names_ = [x for x in names_ if len(specs[x][0]) == 1 or x in keep]
+            ctx.count('second-order-subsampled')
+        for name in names_:
+            rewards, center = specs[name]
             exp = float(conv.model_moment(drv, cfg, center, True, rewards, [Tq])[0])
             k = len(rewards)
             if k == 1:
